@@ -526,6 +526,17 @@ pub fn c04(tier: &str) -> i32 {
     mg.prices = vec![2_147_483_647, 2_147_483_648];
     mg.limit_vols = vec![1, 3_000_000_000];
     plans.push(plan("large times (set_time by 2^33), prices and volumes", mg, 3, if t { 5 } else { 4 }));
+    // a reloaded book is a book: terminal orders must stay terminal after a snapshot round trip too
+    // (one price, three orders at most: deep enough for re-queue, reload, cancel, aggressor)
+    let mut rl = Profile::core("lifecycle-reload", 1, 10);
+    rl.prices = vec![10];
+    rl.limit_vols = vec![2];
+    rl.market_vols = vec![1];
+    rl.modify = true;
+    rl.modify_vols = vec![3];
+    rl.reload_modes = vec![0];
+    rl.max_orders = 4;
+    plans.push(plan("one price, re-queuing modifies, snapshot reload as an operation", rl, 3, if t { 8 } else { 7 }));
     // C04 has no clock-discipline clause: the same requests with the clock NOT advanced
     let mut pt = p.clone();
     pt.name = "lifecycle-ties".into();
